@@ -947,7 +947,11 @@ def uses_of(env, m):
         if T is not None:
             us.append(("enum-type", lambda: ffi.typeof(T).relements))
         return us
-    return [("lib-attr", lambda: getattr(lib, key))]
+    # an integer constant: through lib, through ffi.integer_const(), and as an array length in a type string
+    return [("lib-attr", lambda: getattr(lib, key)),
+            ("integer_const", lambda: ffi.integer_const(key)),
+            ("array-length", lambda: ffi.typeof("char[%s]" % key)),
+            ("array-length-new", lambda: ffi.sizeof("short[%s][2]" % key))]
 
 
 def eval_module(ids):
